@@ -100,7 +100,7 @@ pub struct Ctx {
     pub seed: u64,
     pub level: &'static str,
     start: Instant,
-    spaces: Mutex<Vec<Arc<Space>>>,
+    spaces: Arc<Mutex<Vec<Arc<Space>>>>,
     violations: Mutex<Vec<Violation>>,
     viol_count: AtomicU64,
     known_hits: Mutex<BTreeMap<usize, u64>>,
@@ -185,11 +185,134 @@ pub fn install_quiet_panic_hook() {
 }
 
 /// Runs `f`, turning an unwind into `Err(description)`.
+///
+/// Every guarded call is also visible to the runaway watchdog (below): the
+/// thread's slot counts entries and exits, so a call that neither returns nor
+/// makes a nested guarded call while its thread keeps burning CPU is noticed.
 pub fn guard<T>(f: impl FnOnce() -> T) -> Result<T, String> {
-    match panic::catch_unwind(AssertUnwindSafe(f)) {
+    MY_SLOT.with(|s| { s.depth.fetch_add(1, Ordering::Relaxed); s.generation.fetch_add(1, Ordering::Relaxed); });
+    let r = panic::catch_unwind(AssertUnwindSafe(f));
+    MY_SLOT.with(|s| { s.generation.fetch_add(1, Ordering::Relaxed); s.depth.fetch_sub(1, Ordering::Relaxed); });
+    match r {
         Ok(v) => Ok(v),
         Err(_) => Err(LAST_PANIC.with(|p| p.borrow_mut().take()).unwrap_or_else(|| "panic".into())),
     }
+}
+
+/// Makes a call visible to the runaway watchdog without catching unwinds
+/// (for drivers that run library code on an executor which catches panics itself).
+pub fn watched<T>(f: impl FnOnce() -> T) -> T {
+    struct Exit;
+    impl Drop for Exit { fn drop(&mut self) { MY_SLOT.with(|s| { s.generation.fetch_add(1, Ordering::Relaxed); s.depth.fetch_sub(1, Ordering::Relaxed); }); } }
+    MY_SLOT.with(|s| { s.depth.fetch_add(1, Ordering::Relaxed); s.generation.fetch_add(1, Ordering::Relaxed); });
+    let _exit = Exit;
+    f()
+}
+
+//------------ runaway watchdog ------------------------------------------------
+//
+// The explorers run the library in-process. A library call that loops forever
+// without yielding (no panic, no poll, no progress) would make the explorer
+// itself hang, and a hung check is not a verdict. The watchdog turns it into
+// one: every thread that ever entered `guard` owns a slot {generation, depth,
+// CPU clock of the thread}; a watchdog thread samples the slots once a second
+// and, for a slot that stays inside the SAME guarded call (depth > 0,
+// generation unchanged), adds up the CPU time the thread consumed meanwhile.
+// CPU time of the thread, not wall time: machine load, a stopped process or a
+// slow disk cannot raise the alarm. Above the limit (VERIF_RUNAWAY_CPU_S;
+// default 120 s quick / 900 s thorough, far above the total per-thread CPU
+// time of a whole run on the unchanged tree) the run ends with a VIOLATION
+// naming the case the thread had noted (`note_case`).
+
+#[repr(align(128))]
+struct Slot {
+    generation: AtomicU64,
+    depth: AtomicU64,
+    cpu_clock: libc::clockid_t,
+    case: Mutex<String>,
+}
+
+static SLOTS: Mutex<Vec<Arc<Slot>>> = Mutex::new(Vec::new());
+
+thread_local! {
+    static MY_SLOT: Arc<Slot> = {
+        let mut cid: libc::clockid_t = 0;
+        // SAFETY: pthread_self() is the calling thread; cid is a valid out pointer.
+        let rc = unsafe { libc::pthread_getcpuclockid(libc::pthread_self(), &mut cid) };
+        let slot = Arc::new(Slot { generation: AtomicU64::new(0), depth: AtomicU64::new(0), cpu_clock: if rc == 0 { cid } else { -1 }, case: Mutex::new(String::new()) });
+        SLOTS.lock().unwrap().push(slot.clone());
+        slot
+    };
+}
+
+/// Notes which case the calling thread is working on (call it once per work
+/// unit, not per evaluation). Only read if the watchdog has to report.
+pub fn note_case(f: impl FnOnce() -> String) {
+    MY_SLOT.with(|s| *s.case.lock().unwrap() = f());
+}
+
+fn thread_cpu_s(cid: libc::clockid_t) -> Option<f64> {
+    if cid == -1 { return None }
+    let mut ts = libc::timespec { tv_sec: 0, tv_nsec: 0 };
+    // SAFETY: ts is a valid out pointer; an exited thread's clock id makes the call fail, which is handled.
+    if unsafe { libc::clock_gettime(cid, &mut ts) } != 0 { return None }
+    Some(ts.tv_sec as f64 + ts.tv_nsec as f64 / 1e9)
+}
+
+fn spawn_watchdog(id: &'static str, level: &'static str, tier: Tier, spaces: Arc<Mutex<Vec<Arc<Space>>>>, start: Instant) {
+    static STARTED: std::sync::Once = std::sync::Once::new();
+    STARTED.call_once(|| {
+        let limit: f64 = std::env::var("VERIF_RUNAWAY_CPU_S").ok().and_then(|v| v.parse().ok()).unwrap_or(tier.pick(120.0, 900.0));
+        let _ = std::thread::Builder::new().name("runaway-watchdog".into()).spawn(move || {
+            // per slot: (generation last seen, CPU seconds of the thread when that generation was first seen)
+            let mut seen: Vec<(u64, f64)> = Vec::new();
+            loop {
+                std::thread::sleep(std::time::Duration::from_millis(1000));
+                let slots: Vec<Arc<Slot>> = SLOTS.lock().unwrap().clone();
+                for (i, s) in slots.iter().enumerate() {
+                    let g = s.generation.load(Ordering::Relaxed);
+                    let Some(cpu) = thread_cpu_s(s.cpu_clock) else { continue };
+                    if i >= seen.len() { seen.push((g, cpu)); continue }
+                    if s.depth.load(Ordering::Relaxed) == 0 || seen[i].0 != g { seen[i] = (g, cpu); continue }
+                    let burnt = cpu - seen[i].1;
+                    if burnt <= limit { continue }
+                    // one guarded library call has consumed `burnt` CPU seconds without returning
+                    let case = s.case.lock().map(|c| c.clone()).unwrap_or_default();
+                    let witness = if case.is_empty() { "(the explorer notes no case label for this work unit)".to_string() } else { case };
+                    let oracle = format!("{id}.process.runaway_call");
+                    let detail = format!("one guarded library call has consumed {burnt:.0} s of CPU time on its thread without returning, panicking or making another guarded call (limit {limit:.0} s; the whole {} tier needs less than that per thread on the unchanged tree): the library loops or spins", tier.name());
+                    let vd = std::env::var("VERIF_OUT_DIR").unwrap_or_else(|_| verif_dir());
+                    let _ = std::fs::create_dir_all(format!("{vd}/replays"));
+                    let path = format!("{vd}/replays/{id}-{}-{:016x}.json", oracle, fnv(&format!("{oracle}|{witness}")));
+                    let body = json!({"property": id, "tier": tier.name(), "oracle": oracle, "witness": witness, "detail": detail});
+                    let _ = std::fs::write(&path, serde_json::to_string_pretty(&body).unwrap() + "\n");
+                    let (mut evals, mut nontriv, mut st, mut tr, mut tc) = (0u64, 0u64, 0u64, 0u64, 0u64);
+                    let mut names = Vec::new();
+                    if let Ok(sp) = spaces.lock() { for x in sp.iter() {
+                        evals += x.evals.load(Ordering::Relaxed); nontriv += x.nontrivial.load(Ordering::Relaxed);
+                        st += x.states.load(Ordering::Relaxed); tr += x.transitions.load(Ordering::Relaxed); tc += x.traces.load(Ordering::Relaxed);
+                        names.push(x.name.clone());
+                    } }
+                    let mut coverage = json!({
+                        // explorers that batch their counters have reported nothing yet: the execution that did not return counts
+                        "evaluations": evals.max(1), "distinct_nontrivial": nontriv.max(1), "exhaustive": false,
+                        "rule": format!("run ended by the runaway-call watchdog (counts: what the spaces had reported so far, at least the one execution that did not return); spaces started: {}", names.join(", ")),
+                        "samples": [witness.clone()],
+                    });
+                    if level == "model_checking" { coverage["states"] = json!(st); coverage["transitions"] = json!(tr); coverage["traces_validated_against_impl"] = json!(tc); }
+                    let ev = json!({"property_id": id, "tier": tier.name(), "seed": 0, "level": level, "coverage": coverage,
+                        "assumptions": ["run ended early: a library call did not return"], "wall_s": (start.elapsed().as_secs_f64() * 1000.0).round() / 1000.0, "violations": 1});
+                    if !std::env::args().any(|a| a == "--replay") {
+                        let _ = std::fs::create_dir_all(format!("{vd}/evidence"));
+                        let _ = std::fs::write(format!("{vd}/evidence/{id}.json"), serde_json::to_string_pretty(&ev).unwrap() + "\n");
+                    }
+                    println!("VIOLATION property={id} replay={path} oracle={oracle} witness={} detail={}", trunc(&witness, 300), trunc(&detail, 300));
+                    println!("{id}: tier={} ended by the runaway-call watchdog after {:.1}s violations=1", tier.name(), start.elapsed().as_secs_f64());
+                    std::process::exit(1);
+                }
+            }
+        });
+    });
 }
 
 fn fnv(s: &str) -> u64 {
@@ -227,9 +350,12 @@ impl Ctx {
             i += 1;
         }
         let seed = std::env::var("VERIF_SEED").ok().and_then(|s| s.parse().ok()).unwrap_or(0);
+        let start = Instant::now();
+        let spaces = Arc::new(Mutex::new(Vec::new()));
+        spawn_watchdog(id, level, tier, spaces.clone(), start);
         Ctx {
-            id, tier, seed, level, start: Instant::now(),
-            spaces: Mutex::new(Vec::new()), violations: Mutex::new(Vec::new()),
+            id, tier, seed, level, start,
+            spaces, violations: Mutex::new(Vec::new()),
             viol_count: AtomicU64::new(0), known_hits: Mutex::new(BTreeMap::new()),
             per_oracle: Mutex::new(BTreeMap::new()),
             known: load_known(id), assumptions: Mutex::new(Vec::new()),
